@@ -419,3 +419,132 @@ Proof.
       * destruct (Z.ltb_spec i (ztz (val (mag x)))); [reflexivity|lia].
       * destruct (Z.ltb_spec i (ztz (val (mag x)))); [lia|]. destruct (Z.eqb_spec i (ztz (val (mag x)))); [lia|reflexivity].
 Qed.
+
+(** ** set_bit *)
+Lemma setbit_nonneg v i : 0 <= v -> 0 <= i -> 0 <= Z.setbit v i.
+Proof. intros. unfold Z.setbit. apply Z.lor_nonneg. split; [lia|]. rewrite Z.shiftl_1_l. apply Z.pow_nonneg; lia. Qed.
+Lemma clearbit_nonneg v i : 0 <= v -> 0 <= Z.clearbit v i.
+Proof. intros. unfold Z.clearbit. apply Z.ldiff_nonneg. left; lia. Qed.
+
+Theorem uset_bit_spec p a bit value : bits_ok p = true -> canon a -> 0 <= bit < B ->
+  uset_bit p a bit value = Ret (enc (if value then Z.setbit (val a) bit else Z.clearbit (val a) bit)).
+Proof.
+  intros Hp Hc Hb. destruct value; [apply uset_bit_set_spec|apply uset_bit_clear_spec]; auto; lia.
+Qed.
+
+Lemma inormalize_plus_enc n : 0 <= n -> inormalize Plus (enc n) = ienc n.
+Proof. intros Hn. rewrite inormalize_plus by apply enc_wf. rewrite enc_val by exact Hn. reflexivity. Qed.
+
+Theorem iset_bit_nonneg_spec p x bit value : bits_ok p = true -> icanon x -> sg x <> Minus -> 0 <= bit < B ->
+  iset_bit p x bit value = Ret (ienc (if value then Z.setbit (ival x) bit else Z.clearbit (ival x) bit)).
+Proof.
+  intros Hp Hx Hs Hb. unfold iset_bit. isplit3 x Hx; try congruence; rewrite S, V.
+  - destruct value.
+    + rewrite uset_bit_spec by (auto; apply Hx). cbn [bind]. f_equal. rewrite M, val_nil.
+      apply inormalize_plus_enc. apply setbit_nonneg; lia.
+    + cbn [bind]. f_equal. rewrite M. rewrite clearbit_clear by (lia || apply Z.bits_0). reflexivity.
+  - rewrite uset_bit_spec by (auto; apply Hx). cbn [bind]. f_equal. apply inormalize_plus_enc.
+    destruct value; [apply setbit_nonneg|apply clearbit_nonneg]; lia.
+Qed.
+
+(** two's-complement view of one bit above the lowest set bit *)
+Lemma neg_bit_above v k i : is_tz v k -> k < i ->
+  Z.setbit (- v) i = - Z.clearbit v i /\ Z.clearbit (- v) i = - Z.setbit v i.
+Proof.
+  intros T Hi. pose proof T as (H0 & _ & _). assert (Hi0 : 0 <= i) by lia.
+  pose proof (testbit_neg v k i T Hi0) as E.
+  destruct (Z.ltb_spec i k); [lia|]. destruct (Z.eqb_spec i k); [lia|].
+  destruct (Z.testbit v i) eqn:Ev; cbn [negb] in E.
+  - rewrite (setbit_clear (- v) i Hi0 E), (clearbit_set v i Hi0 Ev),
+            (clearbit_clear (- v) i Hi0 E), (setbit_set v i Hi0 Ev). split; ring.
+  - rewrite (setbit_set (- v) i Hi0 E), (clearbit_clear v i Hi0 Ev),
+            (clearbit_set (- v) i Hi0 E), (setbit_clear v i Hi0 Ev). split; ring.
+Qed.
+
+(** which sub-cases of `set_negative_bit` are covered by the theorem below: everything except
+    clearing the lowest set bit (the carry walk) and setting a bit below it (the mask flip) *)
+Definition snb_covered (data : list Z) (bit : Z) (value : bool) : Prop :=
+  let tz := ztz (val data) in
+  64 * zlen data <= bit \/ tz < bit \/ (bit = tz /\ value = true) \/ (bit < tz /\ value = false).
+
+Theorem set_negative_bit_partial p data bit value :
+  bits_ok p = true -> canon data -> data <> [] -> 0 <= bit < B -> snb_covered data bit value ->
+  exists d, set_negative_bit p data bit value = Ret d /\ wf d /\
+            - val d = if value then Z.setbit (- val data) bit else Z.clearbit (- val data) bit.
+Proof.
+  intros Hp Hc Hn Hb Hcov. pose proof (canon_val_pos _ Hc Hn) as P. pose proof (proj1 Hc) as Hw.
+  pose proof (tz_some _ Hw P) as Et. pose proof (utrailing_zeros_meaning _ _ Hw Et) as T.
+  pose proof (tz_bound _ _ Hw Et) as Bz. set (tz := ztz (val data)) in *.
+  apply bits_ok_inv in Hp. subst p. assert (Hp : bits_ok bits_default = true) by reflexivity.
+  unfold set_negative_bit. cbn [bp_snb_hi bits_default cmp_eval].
+  assert (Hhi : 64 * zlen data <= bit -> Z.testbit (val data) bit = false /\ Z.testbit (- val data) bit = true).
+  { intros Hge. pose proof (val_bound _ Hw) as Hbd. rewrite B_pow_pow2 in Hbd by lia.
+    assert (E : Z.testbit (val data) bit = false) by (apply (testbit_small _ (64 * zlen data)); unfold zlen in *; lia).
+    split; [exact E|]. rewrite (testbit_neg _ _ bit T ltac:(lia)).
+    destruct (Z.ltb_spec bit tz); [lia|]. destruct (Z.eqb_spec bit tz); [lia|]. rewrite E. reflexivity. }
+  destruct (Z.geb_spec bit (64 * zlen data)) as [Hge|Hlt].
+  - destruct (Hhi Hge) as [E1 E2]. destruct value; cbn [negb].
+    + exists data. split; [reflexivity|]. split; [exact Hw|]. rewrite setbit_set by (lia || exact E2). reflexivity.
+    + rewrite uset_bit_set_spec by (auto; lia). eexists. split; [reflexivity|]. split; [apply enc_wf|].
+      rewrite enc_val by (apply setbit_nonneg; lia).
+      rewrite setbit_clear by (lia || exact E1). rewrite clearbit_set by (lia || exact E2). ring.
+  - rewrite Et. cbn [bp_snb_gt bits_default cmp_eval].
+    destruct (Z.gtb_spec bit tz) as [Hgt|Hle].
+    + destruct (neg_bit_above _ _ bit T Hgt) as [N1 N2].
+      rewrite uset_bit_spec by (auto; lia). eexists. split; [reflexivity|]. split; [apply enc_wf|].
+      destruct value; cbn [negb].
+      * rewrite enc_val by (apply clearbit_nonneg; lia). rewrite N1. reflexivity.
+      * rewrite enc_val by (apply setbit_nonneg; lia). rewrite N2. reflexivity.
+    + cbn [bp_snb_eq bp_snb_lt bits_default cmp_eval].
+      unfold snb_covered in Hcov. fold tz in Hcov.
+      destruct Hcov as [H|[H|[[H1 H2]|[H1 H2]]]]; try lia; subst value; cbn [negb andb].
+      * subst bit. rewrite Z.eqb_refl, Z.ltb_irrefl. cbn [andb].
+        exists data. split; [reflexivity|]. split; [exact Hw|].
+        rewrite setbit_set; [reflexivity|lia|]. rewrite (testbit_neg _ _ tz T ltac:(lia)).
+        rewrite Z.ltb_irrefl, Z.eqb_refl. reflexivity.
+      * destruct (Z.eqb_spec bit tz); [lia|]. rewrite andb_false_r. cbn [andb].
+        exists data. split; [reflexivity|]. split; [exact Hw|].
+        rewrite clearbit_clear; [reflexivity|lia|]. rewrite (testbit_neg _ _ bit T ltac:(lia)).
+        destruct (Z.ltb_spec bit tz); [reflexivity|lia].
+Qed.
+
+Theorem iset_bit_neg_partial p x bit value :
+  bits_ok p = true -> icanon x -> sg x = Minus -> 0 <= bit < B -> snb_covered (mag x) bit value ->
+  iset_bit p x bit value = Ret (ienc (if value then Z.setbit (ival x) bit else Z.clearbit (ival x) bit)).
+Proof.
+  intros Hp Hx Hs Hb Hcov. unfold iset_bit. isplit3 x Hx; try congruence. rewrite S, V.
+  destruct (set_negative_bit_partial p (mag x) bit value Hp (proj1 Hx) M Hb Hcov) as (d & E & Hd & Vd).
+  rewrite E. cbn [bind]. f_equal. rewrite inormalize_minus by exact Hd. f_equal. exact Vd.
+Qed.
+
+(** ** bits / trailing_zeros of a BigInt look at the magnitude *)
+Theorem ibits_spec x : icanon x -> ibits x = spec_bits (ival x).
+Proof.
+  intros Hx. unfold ibits. rewrite ubits_spec by apply Hx. unfold spec_bits.
+  isplit3 x Hx; rewrite V; try (rewrite M, val_nil); try reflexivity. rewrite Z.abs_opp.
+  destruct (Z.eqb_spec (val (mag x)) 0), (Z.eqb_spec (- val (mag x)) 0); try lia; reflexivity.
+Qed.
+
+Lemma ztz_opp v : ztz (- v) = ztz v.
+Proof. unfold ztz. rewrite Z.opp_involutive, Z.land_comm. reflexivity. Qed.
+
+Theorem itrailing_zeros_spec x : icanon x -> itrailing_zeros x = spec_trailing_zeros (ival x).
+Proof.
+  intros Hx. unfold itrailing_zeros. rewrite utrailing_zeros_spec by apply Hx. unfold spec_trailing_zeros.
+  isplit3 x Hx; rewrite V; try (rewrite M, val_nil); try reflexivity. rewrite ztz_opp.
+  destruct (Z.eqb_spec (val (mag x)) 0), (Z.eqb_spec (- val (mag x)) 0); try lia; reflexivity.
+Qed.
+
+(** the executable [ztz] is the index of the lowest set bit *)
+Theorem ztz_meaning x : x <> 0 -> is_tz x (ztz x).
+Proof.
+  intros Hx.
+  assert (H : forall p, is_tz (Zpos p) (ztz (Zpos p))).
+  { intros p. pose proof (ptz_is_tz p) as T. rewrite (ztz_is_tz _ _ T). exact T. }
+  destruct x as [|p|p]; [congruence|apply H|].
+  change (Z.neg p) with (- Z.pos p). rewrite ztz_opp. pose proof (H p) as T.
+  set (k := ztz (Z.pos p)) in *. pose proof T as (H0 & _ & _).
+  split; [exact H0|]. split.
+  - rewrite (testbit_neg _ _ k T H0). rewrite Z.ltb_irrefl, Z.eqb_refl. reflexivity.
+  - intros j Hj. rewrite (testbit_neg _ _ j T ltac:(lia)). destruct (Z.ltb_spec j k); [reflexivity|lia].
+Qed.
